@@ -13,11 +13,15 @@ Record case := {
   c_cancelled_before_followup : bool;
   c_cancel_followup : option nat;    (* follow-up completions received before the context was cancelled *)
   c_universe : list id;              (* C02: all peers of an honest network ([] otherwise) *)
+  c_full : bool;                     (* C02: every peer knows the whole network *)
   (* ---- observed on the real code ---- *)
   i_panic : bool;                    (* recovered panic / deadlock *)
   i_peers : list id; i_states : list pstate; i_closest : list id; i_completed : bool;
   i_events : list levent;
-  i_requests : list id }.            (* every request or dial the fake network saw *)
+  i_requests : list id;              (* every request or dial the fake network saw *)
+  (* the same lookup through the public GetClosestPeers on a fresh node (C02):
+     returned peers, did it return an error, did the bucket refresh stamp move *)
+  i_pub : option (list id * bool * option bool) }.
 
 Definition env_of (l : list (id * outcome)) (p : id) : outcome :=
   match find (fun x => N.eqb (fst x) p) l with
@@ -43,12 +47,6 @@ Fixpoint nodupb (l : list N) : bool :=
   | [] => true
   | x :: l' => negb (memN x l') && nodupb l'
   end.
-Fixpoint ins_dist (key x : N) (l : list N) : list N :=
-  match l with
-  | [] => [x]
-  | y :: l' => if N.leb (dist key x) (dist key y) then x :: l else y :: ins_dist key x l'
-  end.
-Definition sort_dist (key : N) (l : list N) : list N := fold_right (ins_dist key) [] l.
 Fixpoint strictly_ascending (key : N) (l : list N) : bool :=
   match l with
   | x :: ((y :: _) as l') => N.ltb (dist key x) (dist key y) && strictly_ascending key l'
@@ -166,3 +164,60 @@ Definition c01_events_ok (c : case) : bool :=
        match rev (i_events c) with EvTerm _ :: _ => true | _ => false end)).
 
 Definition c01_prop_ok (c : case) : bool := negb (i_panic c) && c01_result_ok c && c01_events_ok c.
+
+(* ---- C02 on the implementation's trace ------------------------------------------------------------ *)
+Definition uncancelled (c : case) : bool :=
+  negb (has_cancel (c_evs c)) && negb (c_cancelled_before_followup c) &&
+  match c_cancel_followup c with None => true | Some _ => false end.
+
+Definition impl_reason (c : case) : option reason :=
+  match rev (i_events c) with EvTerm r :: _ => Some r | _ => None end.
+
+(* convergence: the globally nearest peer first; the K globally nearest when everybody knows everybody *)
+Definition c02_convergence_ok (c : case) : bool :=
+  match c_universe c with
+  | [] => true
+  | _ =>
+      if negb (uncancelled c) then true else
+      let sorted := sort_dist (cKey (c_cfg c)) (c_universe c) in
+      match sorted, i_peers c with
+      | g :: _, m :: _ => N.eqb g m
+      | _, _ => false
+      end &&
+      (if c_full c then list_eqb N.eqb (i_peers c) (firstn (cK (c_cfg c)) sorted) else true)
+  end.
+
+(* the end condition, read off the implementation's own events *)
+Definition c02_end_ok (c : case) : bool :=
+  if negb (uncancelled c) then true else
+  match impl_reason c with
+  | Some Completed | Some Starvation =>
+      let cfg := c_cfg c in
+      let learned := dedupN (filter (fun p => negb (N.eqb p (cSelf cfg))) (c_seeds c ++ resp_heard (i_events c))) in
+      let failed := resp_failed (i_events c) in
+      let queried := resp_queried (i_events c) in
+      let alive := sort_dist (cKey cfg) (filter (fun p => negb (memN p failed)) learned) in
+      forallb (fun p => memN p queried) (firstn (cBeta cfg) alive)
+      || forallb (fun p => memN p queried || memN p failed) learned
+  | _ => true
+  end.
+
+(* a completed lookup has sent the request to every peer it returns *)
+Definition c02_contacted_ok (c : case) : bool :=
+  if i_completed c then forallb (fun p => memN p (i_requests c)) (i_peers c) else true.
+
+(* GetClosestPeers: same peers; side effects exactly when completed and not cancelled *)
+Definition c02_public_ok (c : case) : bool :=
+  match i_pub c with
+  | None => true
+  | Some (peers, err, moved) =>
+      list_eqb N.eqb peers (i_peers c) &&
+      match moved with   (* None: the key's bucket is outside the range the routing table reports *)
+      | Some mv => Bool.eqb mv (gcp_side_effects (negb (uncancelled c)) {| r_peers := i_peers c; r_states := i_states c; r_closest := i_closest c; r_completed := i_completed c |})
+      | None => true
+      end &&
+      Bool.eqb err (negb (uncancelled c))
+  end.
+
+Definition c02_prop_ok (c : case) : bool :=
+  negb (i_panic c) && c02_convergence_ok c && c02_end_ok c && c02_contacted_ok c && c02_public_ok c.
